@@ -691,8 +691,15 @@ func writeEvidence(spec *Spec, tier string, seed int64, results []*RunResult, co
 		"assumptions": append([]string{}, spec.Assumptions...),
 		"wall_s":      round1(wall), "violations": nviol,
 	}
-	os.MkdirAll(filepath.Join(verifDir, "evidence"), 0o755)
 	b, _ := json.MarshalIndent(ev, "", " ")
+	if os.Getenv("VERIF_REPO") != "" {
+		// a trial against a scratch tree (a seeded change): the evidence of the real tree is left alone
+		dir := filepath.Join(verifDir, "replays")
+		os.MkdirAll(dir, 0o755)
+		os.WriteFile(filepath.Join(dir, "trial-evidence-"+spec.Property+".json"), b, 0o644)
+		return
+	}
+	os.MkdirAll(filepath.Join(verifDir, "evidence"), 0o755)
 	os.WriteFile(filepath.Join(verifDir, "evidence", spec.Property+".json"), b, 0o644)
 }
 
